@@ -643,7 +643,7 @@ class Builder(ExprMixin):
         self.fr.loops.append((head, brk, len(self.fr.cleanups)))
         env0 = dict(self.fr.env)
         self.cur_stmt = st
-        bp = self.assign(st.target, Val("elem", itv), {head})
+        bp = self.assign(st.target, self.elem_of(itv), {head})
         body_out = self.block(st.body, bp)
         self.fr.loops.pop()
         self.link_all(body_out, head)
